@@ -50,6 +50,9 @@ type req struct {
 	Workers   int  `json:"workers"`
 	QLen      int  `json:"qlen"`
 	CloseConn bool `json:"close_conn"`
+	// DrainTimeoutUs > 0: the server connection is opened with nats.DrainTimeout (a configuration
+	// dimension: the property must not depend on the drain finishing within that option)
+	DrainTimeoutUs int `json:"drain_timeout_us"`
 	Ops       []op `json:"ops"`
 }
 
@@ -155,7 +158,11 @@ func handle(q req) resp {
 	n := atomic.AddInt64(&caseSeq, 1)
 	prefix := fmt.Sprintf("c20.%d.%d", os.Getpid(), n)
 
-	srvConn, err := nats.Connect(brokerURL)
+	var srvOpts []nats.Option
+	if q.DrainTimeoutUs > 0 {
+		srvOpts = append(srvOpts, nats.DrainTimeout(time.Duration(q.DrainTimeoutUs)*time.Microsecond))
+	}
+	srvConn, err := nats.Connect(brokerURL, srvOpts...)
 	if err != nil {
 		r.Err = "connect: " + err.Error()
 		return r
